@@ -267,16 +267,27 @@ func xmlAddKeyElements(s Entry, parent *etree.Element) {
 	parentSchema, levelsUp := s.GetFirstAncestorWithSchema()
 	// from the parent we get the keys as slice
 	schemaKeys := parentSchema.GetSchemaKeys()
-	var treeElem Entry = s
+	// the key levels of the tree are sorted by the name of the key (see utils.ToStrings())
+	sortedKeys := slices.Clone(schemaKeys)
+	slices.Sort(sortedKeys)
 	// the keys do match the levels up in the tree in reverse order
 	// hence we init i with levelUp and count down
-	for i := levelsUp - 1; i >= 0; i-- {
-		// skip if the element already exists
-		existingElem := parent.SelectElement(schemaKeys[i])
-		if existingElem == nil {
+	keyValues := map[string]string{}
+	var treeElem Entry = s
+	for i := levelsUp - 1; i >= 0 && i < len(sortedKeys); i-- {
+		keyValues[sortedKeys[i]] = treeElem.PathName()
+		treeElem = treeElem.GetParent()
+	}
+	// the key elements have to be the first childs, in the order of the key statement
+	for idx, key := range schemaKeys {
+		keyElem := parent.SelectElement(key)
+		if keyElem == nil {
 			// and finally we create the patheleme key attributes
-			parent.CreateElement(schemaKeys[i]).SetText(treeElem.PathName())
-			treeElem = treeElem.GetParent()
+			keyElem = etree.NewElement(key)
+			keyElem.SetText(keyValues[key])
+		} else {
+			parent.RemoveChild(keyElem)
 		}
+		parent.InsertChildAt(idx, keyElem)
 	}
 }
